@@ -15,6 +15,7 @@ import os
 from ..core import REPO, UnitResult, BoundedResult
 from ..unit import Unit
 from . import fitter_units as FT
+from . import scan_units as SU
 
 LEVEL = "other"
 EXPLANATION = ("Deductive: the mask construction of fit() for absolute and contact-point-relative ranges and the "
@@ -108,7 +109,7 @@ def unit_canaries(tier=None, seed=None):
 
 
 def units(tier):
-    us = FT.units_for("C05") + [Unit("bounded.ranges", unit_bounded_ranges),
+    us = FT.units_for("C05") + SU.units_for("C05") + [Unit("bounded.ranges", unit_bounded_ranges),
                                 Unit("bounded.plateau_search", unit_bounded_plateau)]
     if tier == "thorough" and not os.environ.get("VF_NO_CANARIES") and str(REPO) == "/repo":
         us.append(Unit("selftest.canaries", unit_canaries))
